@@ -183,6 +183,9 @@ def header_findings(env, res):
                 continue
             n += 1
             res.count("R04.hdr")
+            if not GA.out_cleared_before_use(g):
+                res.add("R04.d", "generate_internal/output-not-empty-at-entry",
+                        "a generation call appends to Generator.output without clearing it first: on a reused generator the bytes of the previous pickle (with its STOP) precede this one", loc)
             pre = []
             for w in g.writes:
                 if w[0] in ("opaque_emission", "opaque_cleanup"):
